@@ -24,6 +24,7 @@ func (vhDesig) GetDesignatedByRole(*dao.Simple, noderoles.Role, uint32) (keys.Pu
 
 //vf:tier quick
 //vf:bigint theory
+//vf:bvints off
 //vf:unwind 64
 //vf:bound one block with one Notary-sponsored transaction (symbolic system and network fee < 2^15, NotaryAssisted with any key count) paid by depositor D; D and another depositor E hold symbolic deposits (D's covers the fees); no notary nodes designated
 //vf:stub fee burning is done as GAS.OnPersist does it (Burn from the transaction sender); Designate is a stub without notary nodes
